@@ -91,4 +91,5 @@ def spec(tier):
         ],
         "min_distinct": 40 if quick else 1000,
     }
+    opts["thorough_rounds"] = 1   # this job list alone takes tens of minutes in the thorough tier
     return jobs, floors, rule, opts
